@@ -30,9 +30,11 @@ PA == {TNum, TVar("a"), TVar("b")}
 PD1 == PA \cup {TList(e) : e \in PA} \cup {TMaybe(e) : e \in PA} \cup {TMap(a, b) : a \in {TNum, TVar("a")}, b \in PA}
         \cup {TObj(<<Fld(FA, e)>>) : e \in PA}
         \cup {TObj(<<Fld(fg[1], e), Fld(fg[2], h)>>) : e \in PA, h \in PA, fg \in {<<FA, FB>>, <<FB, FA>>}}
-GS == {TNum, TStr, TList(TNum), TList(TStr), TObj(<<Fld(FA, TNum)>>), TMaybe(TNum), TMap(TNum, TStr),
-       TObj(<<Fld(FA, TNum), Fld(FB, TStr)>>), TObj(<<Fld(FB, TStr), Fld(FA, TNum)>>),
-       TObj(<<Fld(FA, TNum), Fld(FB, TNum)>>), TList(TList(TNum))}
+GS == IF Full
+      THEN {TNum, TStr, TList(TNum), TList(TStr), TObj(<<Fld(FA, TNum)>>), TMaybe(TNum), TMap(TNum, TStr),
+            TObj(<<Fld(FA, TNum), Fld(FB, TStr)>>), TObj(<<Fld(FB, TStr), Fld(FA, TNum)>>),
+            TObj(<<Fld(FA, TNum), Fld(FB, TNum)>>), TList(TList(TNum))}
+      ELSE {TNum, TStr, TList(TNum), TObj(<<Fld(FA, TNum), Fld(FB, TStr)>>), TObj(<<Fld(FB, TStr), Fld(FA, TNum)>>), TMap(TNum, TStr)}
 
 VARIABLE st
 Mk(x, y) == [x |-> x, y |-> y, u |-> Unify(x, y, EmptyM)]
